@@ -122,6 +122,12 @@ func (e *Enc) lookupContract(fn *ssa.Function, name string) *Contract {
 		if c, ok := e.CS.Funcs[on]; ok {
 			return c
 		}
+		// a contract written for one instance serves every instance
+		for _, cn := range e.CS.Order {
+			if strings.HasPrefix(cn, on+"[") {
+				return e.CS.Funcs[cn]
+			}
+		}
 	}
 	if fn.Parent() != nil {
 		// anchored closure names: parent$closure(callee)
@@ -640,16 +646,31 @@ func (e *Enc) havocCall(fr *Frame, ct callTarget, args []Val, common *ssa.CallCo
 			}
 		}
 	}
-	if ct.inPkg || strings.HasPrefix(ct.name, "dynamic:") {
-		// an in-package callee may perform any tracked event
-		for _, g := range e.CS.GhostOrder {
+	if ct.inPkg && ct.fn != nil && len(ct.fn.Blocks) > 0 {
+		// tracked events the callee can reach (static call graph)
+		fx := e.ghostEffects(ct.fn)
+		var names []string
+		if fx["*"] {
+			names = append(names, e.CS.GhostOrder...)
+			names = append(names, "sends", "nilsends", "recvs")
+		} else {
+			for k := range fx {
+				names = append(names, strings.TrimPrefix(k, "ghost."))
+			}
+			sortStrings(names)
+		}
+		for _, g := range names {
+			if g == "closes" {
+				continue
+			}
 			key, srt, _ := e.ghostKey(g)
 			st.m[key] = e.B.declConst(key, srt)
 		}
-		for _, g := range []string{"sends", "nilsends", "recvs"} {
-			key, srt, _ := e.ghostKey(g)
-			st.m[key] = e.B.declConst(key, srt)
+		if len(names) == 0 {
+			e.note("%s reaches no tracked event (static call graph): ghost state unchanged across the call", ct.name)
 		}
+	} else if strings.HasPrefix(ct.name, "dynamic:") {
+		e.note("call through a function value (%s): assumed not to touch tracked state", ct.name)
 	}
 	e.havocAlloc(st)
 	return e.resultVal("hres."+sanitize(ct.name), ct.sig, st), st
@@ -713,7 +734,7 @@ func (e *Enc) scanCallMods(fn *ssa.Function, ci ssa.CallInstruction, mods map[st
 		case "append":
 			mods["alloc"] = true
 			if sl, ok := common.Args[0].Type().Underlying().(*types.Slice); ok {
-				mods[e.B.heapName(sl.Elem())] = true
+				mods["~"+e.B.heapName(sl.Elem())] = true
 				stateSorts[e.B.heapName(sl.Elem())] = e.B.heapSort(sl.Elem())
 			}
 		case "copy":
@@ -774,11 +795,20 @@ func (e *Enc) scanCallMods(fn *ssa.Function, ci ssa.CallInstruction, mods map[st
 		}
 	default:
 		mods["alloc"] = true
-		if ct.inPkg || strings.HasPrefix(ct.name, "dynamic:") {
-			mods["*"] = true
-			return
+		if ct.inPkg && ct.fn != nil && len(ct.fn.Blocks) > 0 {
+			fx := e.ghostEffects(ct.fn)
+			if fx["*"] {
+				mods["*"] = true
+				return
+			}
+			for k := range fx {
+				if k != "ghost.closes" {
+					key, _, _ := e.ghostKey(strings.TrimPrefix(k, "ghost."))
+					mods[key] = true
+				}
+			}
 		}
-		// out-of-package callee: argument-reachable memory
+		// argument-reachable memory
 		var argTypes []types.Type
 		if common.IsInvoke() {
 			argTypes = append(argTypes, common.Value.Type())
